@@ -16,10 +16,22 @@ def last(name):
     return name.rsplit("::", 1)[-1] if isinstance(name, str) else ""
 
 
+def mk_item(world, recv):
+    """the closure-parameter item of iterator expression `recv`: elem(canonical source) where the canonical source has the adaptors
+    that neither change nor renumber the entries (iter, filter, take_while, ..) stripped, so that the item of a `filter` closure and
+    the item of the `map` closure after it are the same expression; the full pipeline is kept aside (site tag) for droppers()"""
+    x = world.ident(recv, expand_ws=False)
+    while x.op == "call" and world.callee_body(x) is None and x.args and (last(x.info) in TRANSPARENT or last(x.info) in DROPPING and last(x.info) != "filter_map"):
+        x = world.ident(x.args[0], expand_ws=False)
+    return E("elem", (x,), None, ("pipe", recv))
+
+
 def item_source(world, x):
     """the iterator expression an item expression is drawn from, or None"""
     x = world.ident(x, expand_ws=False)
     if x.op == "elem":
+        if isinstance(x.site, tuple) and len(x.site) == 2 and x.site[0] == "pipe":
+            return x.site[1]
         return x.args[0]
     if (x.op == "proj" and x.info == "some") or (x.op == "call" and last(x.info) == "next"):
         c = world.ident(x.args[0], expand_ws=False) if x.op == "proj" else x
@@ -138,3 +150,37 @@ def drops_only_zero(world, prog, dropper, field=None):
     if field is None:
         return (a0.op == "param" and a0.info[1] == 2) or (a0.op == "field" and a0.args[0].op == "param" and a0.args[0].info[1] == 2)
     return a0.op == "field" and a0.info[0] == field and a0.args[0].op == "param" and a0.args[0].info[1] == 2
+
+
+def true_facts(sem, body):
+    """edge facts that hold whenever the bool-returning closure / function `body` returns true: facts of the switch edges every
+    true-capable return site lies behind, plus the returned expression itself being true (in the body's own terms)"""
+    w = sem.w
+    be = w.be(body)
+    cfg = be.cfg
+    sites = []
+    for d in be.defs_by_local.get(0, []):
+        if d.path or d.bb not in cfg.live:
+            continue
+        v = w.ident(be.def_value(d), expand_ws=False)
+        alts = v.args if v.op == "phi" else (v,)
+        for a in alts:
+            if a.op == "const" and a.info[0] == "scalar" and a.info[1] == 0:
+                continue
+            sites.append((d.bb, a))
+    if not sites:
+        return []
+    common = None
+    for (bb, a) in sites:
+        fs = []
+        for blk in body.blocks:
+            if blk.term.kind == "switch" and blk.idx in cfg.live:
+                for succ, fl in sem.edge_facts(be, blk.idx).items():
+                    if bb not in cfg.reach([0], removed={(blk.idx, succ)}) and len(cfg.succ[blk.idx]) > 1:
+                        # (u,succ) is the only way to bb only if the other out-edges cannot reach it
+                        others = [(blk.idx, s2) for s2 in cfg.succ[blk.idx] if s2 != succ]
+                        fs.extend(fl)
+        if not (a.op == "const"):
+            fs.append(sem._norm_bool(a, True))
+        common = fs if common is None else [f for f in common if f in fs]
+    return common or []
